@@ -62,8 +62,8 @@ FixedVals(w) ==
   ELSE <<<<0>> \o Z(w), <<0>> \o Z(w - 1) \o <<1>>, <<0>> \o FF(w), <<0, 128>> \o Z(w - 1),
          <<0, 127>> \o FF(w - 1), <<0>> \o Cnt(w)>>
 X64 == [i \in 1..64 |-> 120]
-S(t) == <<3>> \o t
-StrVals == <<S(<<>>), S(<<97>>), S(<<98>>), S(<<195, 169>>), S(<<226, 130, 172>>), S(<<240, 159, 152, 128>>), S(X64)>>
+SV(t) == <<3>> \o t
+StrVals == <<SV(<<>>), SV(<<97>>), SV(<<98>>), SV(<<195, 169>>), SV(<<226, 130, 172>>), SV(<<240, 159, 152, 128>>), SV(X64)>>
 DateVals == <<<<12, 1970, 1, 1>>, <<12, 2024, 2, 29>>, <<12, 0, 1, 1>>, <<12, -1, 12, 31>>,
               <<12, 262142, 12, 31>>, <<12, -262143, 1, 1>>, <<12, 9999, 12, 31>>>>
 TimeVals == <<<<13, 0, 0, 0, 0>>, <<13, 23, 59, 59, 999999999>>, <<13, 23, 59, 59, 1999999999>>,
@@ -72,15 +72,15 @@ NdtVals == <<<<14, DateVals[1], TimeVals[1]>>, <<14, DateVals[2], TimeVals[2]>>,
              <<14, DateVals[7], TimeVals[3]>>, <<14, DateVals[3], TimeVals[5]>>>>
 NdtExtreme == <<<<14, DateVals[5], TimeVals[2]>>, <<14, DateVals[6], TimeVals[1]>>>>
 OffVals == <<<<11, 0>>, <<11, 3600>>, <<11, -3600>>, <<11, 86399>>, <<11, -86399>>, <<11, 1>>>>
-ZoneSeq == <<S(<<85, 84, 67>>),
-             S(<<69, 117, 114, 111, 112, 101, 47, 66, 117, 100, 97, 112, 101, 115, 116>>),
-             S(<<65, 109, 101, 114, 105, 99, 97, 47, 78, 101, 119, 95, 89, 111, 114, 107>>),
-             S(<<65, 115, 105, 97, 47, 75, 111, 108, 107, 97, 116, 97>>)>>
+ZoneSeq == <<SV(<<85, 84, 67>>),
+             SV(<<69, 117, 114, 111, 112, 101, 47, 66, 117, 100, 97, 112, 101, 115, 116>>),
+             SV(<<65, 109, 101, 114, 105, 99, 97, 47, 78, 101, 119, 95, 89, 111, 114, 107>>),
+             SV(<<65, 115, 105, 97, 47, 75, 111, 108, 107, 97, 116, 97>>)>>
 \* 2024-11-03 05:30:00 UTC is inside the repeated hour of America/New_York
 FoldNdt == <<14, <<12, 2024, 11, 3>>, <<13, 5, 30, 0, 0>>>>
-DecimalSeq == <<S(<<48>>), S(<<49>>), S(<<45, 49>>), S(<<48, 46, 53>>), S(<<45, 49, 50, 46, 55, 53>>),
-                S(<<49, 50, 51, 52, 53, 54, 55, 56, 57, 48, 49, 50, 51, 52, 53, 54, 55, 56, 57, 48, 49, 50, 51, 52, 53, 54, 55, 56, 57, 48>>),
-                S(<<49, 69, 45, 49, 48, 48>>), S(<<49, 101, 43, 49, 48, 48>>), S(<<48, 46, 48, 48, 48, 48, 48, 49>>)>>
+DecimalSeq == <<SV(<<48>>), SV(<<49>>), SV(<<45, 49>>), SV(<<48, 46, 53>>), SV(<<45, 49, 50, 46, 55, 53>>),
+                SV(<<49, 50, 51, 52, 53, 54, 55, 56, 57, 48, 49, 50, 51, 52, 53, 54, 55, 56, 57, 48, 49, 50, 51, 52, 53, 54, 55, 56, 57, 48>>),
+                SV(<<49, 69, 45, 49, 48, 48>>), SV(<<49, 101, 43, 49, 48, 48>>), SV(<<48, 46, 48, 48, 48, 48, 48, 49>>)>>
 B9(t) == <<9>> \o t
 NanosMax == <<59, 154, 201, 255>>    \* 999 999 999
 
